@@ -6,7 +6,7 @@
    correspondence check.  REFUTED statements are false of the faithful model and of the code. *)
 From Coq Require Import List ZArith NArith Bool.
 From SopVerif Require Import OMap OMapProofs OMapProofs2 Btree BtreeSim BtreeProofs BtreeProofs2
-  BtreeBounded2 Corr.C17 Corr.C18.
+  BtreeBounded2 BtreeShape BtreeFind BtreeNext BtreePrev BtreeFindLoc Corr.C17 Corr.C18.
 Import ListNotations.
 Local Open Scope Z_scope.
 
@@ -115,6 +115,42 @@ Theorem C18_btree_results : forall cfg ops b s, sim_from cfg b s ops = true ->
     (ops <> [] -> items s' = b_inorder b' /\ ocount s' = bcount b' /\ current_key s' = bcurrent_key b').
 Proof. exact sim_from_orun. Qed.
 Print Assumptions C18_btree_results.
+
+(* NODE LEVEL, closed for every tree-shaped state (stage 1 of the inductive refinement): on every pair
+   of states related by RelT (the node map forms a tree - BtreeShape.shape: any height, any slot
+   length, nil children, unbalanced branches - whose in-order walk is the specification's sorted item
+   list), Find(key, true) on a stored key simulates: the descent of node.find (binary search per
+   node, "found so far" carried down to the leftmost duplicate) ends on the FIRST item with the key.
+   Not closed at node level: the miss position, Find(key,false), FindInDescendingOrder, FindWithID,
+   Next/Previous (C17_refines_partial + bounded + per-run evaluation cover them). *)
+Theorem C18_btree_find_first_hit : forall cfg b s k, RelT b s -> sorted (items s) -> has_key (items s) k = true ->
+  exists b' s', sim_step cfg b s (OFind k true) = Some (b', s') /\ RelT b' s' /\
+                cur s' = CAt (lb (items s) k) /\ items s' = items s.
+Proof. exact find_first_hit_sim. Qed.
+Print Assumptions C18_btree_find_first_hit.
+
+(* the node-level core of range scans: on every pair of states related by RelN (tree with correct
+   parent links, see Props/C17.v C17_refines_navigation) with a sorted list, Find(key, true) on a stored
+   key lands on a LOCATED slot at position lb(list, key) and any sequence of Next / Previous / First /
+   Last calls after it simulates - so scanning from the found position visits exactly the
+   specification's items, in both directions *)
+Theorem C18_btree_find_then_scan : forall cfg b s k ops, RelN (cL cfg) b s -> sorted (items s) ->
+  has_key (items s) k = true -> Forall is_nav_op ops ->
+  sim_from cfg b s (OFind k true :: ops) = true.
+Proof. exact find_then_navigate. Qed.
+Print Assumptions C18_btree_find_then_scan.
+
+Theorem C18_btree_find_first_located : forall cfg b s k, RelN (cL cfg) b s -> sorted (items s) -> has_key (items s) k = true ->
+  exists b' s', sim_step cfg b s (OFind k true) = Some (b', s') /\ RelN (cL cfg) b' s' /\
+                cur s' = CAt (lb (items s) k) /\ items s' = items s.
+Proof. exact find_first_hit_simN. Qed.
+Print Assumptions C18_btree_find_first_located.
+
+(* First / Last on every tree-shaped state *)
+Theorem C18_btree_first_last : forall cfg b s ops, RelT b s -> Forall is_first_last ops ->
+  sim_from cfg b s ops = true.
+Proof. exact first_last_refines. Qed.
+Print Assumptions C18_btree_first_last.
 
 (* BOUNDED (not the claim): searches and navigation inside every call sequence of length <= 5 *)
 Theorem C18_bounded_L2_mixed_5 : forall ops, (length ops <= 5)%nat -> Forall (fun o => In o alpha_mixed) ops ->
